@@ -70,9 +70,14 @@ func (r *Restoration) Commit() {
 	r.tx.Commit()
 
 	r.s.mu.Lock()
-	defer r.s.mu.Unlock()
-
 	r.s.db = r.db
+	r.s.mu.Unlock()
+
+	// The publisher's lock must not be taken while holding s.mu: WatchList takes
+	// them in the opposite order (EventPublisher.Subscribe calls our snapshot
+	// handler, which opens a read transaction, with the publisher's lock held).
+	// A subscription made between the swap above and the refresh below is closed
+	// by the refresh like every other one, whichever database it observed.
 	r.s.pub.RefreshTopic(eventTopic)
 }
 
